@@ -53,8 +53,6 @@ structure Mon where
   /-- rules of the trigger sequence whose action has not returned; while `running`
       the head is the action being executed -/
   todo     : List Nat := []
-  /-- rules whose action has returned (history) -/
-  returned : List Nat := []
   /-- rules whose action returned an error (history; = the local `errors` map of `ProcessEvent`) -/
   failed   : List Nat := []
   /-- `monitorBase.Err` (keys of `TaskError.ErrorMap`) -/
@@ -211,7 +209,6 @@ def step (s : State) : Event → Option State
       match m.phase, m.todo with
       | .running _, r :: rest =>
         some (s.setMon i { m with todo := if !ok && s.failFirst then [] else rest,
-                                  returned := m.returned ++ [r],
                                   failed := if ok then m.failed else m.failed ++ [r] })
       | _, _ => none
     | none => none
@@ -346,48 +343,5 @@ def sumWeights : List Mon → Nat
 def workLeft (s : State) : Nat :=
   sumWeights s.mons + (if s.posted = 0 then 2 + s.obsWait + s.obsHandler + s.obsQueue else 0)
     + s.dWait + s.dHandler + s.dQueue + (if s.hasQueue then 1 else 0)
-
-/-! ### several cascades on one processor
-
-Root monitors share no state: `RootMonitor` fields are per root, the observer table and the task
-queues are keyed by the root, the pump calls only the callbacks registered for the posting root.
-What they share is the pool: a worker occupied by a task of one cascade cannot take a task of
-another. -/
-
-structure Sys where
-  workers   : Nat
-  failFirst : Bool
-  roots     : List State
-  deriving Repr
-
-inductive SysEvent where
-  /-- `NewRootMonitor` -/
-  | newRoot
-  /-- event `e` of cascade `r` -/
-  | at (r : Nat) (e : Event)
-  deriving Repr
-
-def Sys.init (workers : Nat) (failFirst : Bool) : Sys := { workers, failFirst, roots := [] }
-
-/-- worker `w` is not occupied by a task of any cascade -/
-def Sys.workerFree (S : Sys) (w : Nat) : Bool := S.roots.all fun s => s.workerFree w
-
-/-- the pool lets worker `w` take a task only when it is free in every cascade -/
-def Sys.allows (S : Sys) : Event → Bool
-  | .pop w _ => S.workerFree w
-  | _ => true
-
-def Sys.step (S : Sys) : SysEvent → Option Sys
-  | .newRoot => some { S with roots := S.roots ++ [Cascade.init S.workers S.failFirst] }
-  | .at r e =>
-    match S.roots[r]? with
-    | some s =>
-      if S.allows e then (Cascade.step s e).map fun s' => { S with roots := S.roots.set r s' }
-      else none
-    | none => none
-
-def Sys.run (S : Sys) (es : List SysEvent) : Option Sys := es.foldlM Sys.step S
-
-def Sys.Reachable (S : Sys) : Prop := ∃ workers failFirst es, Sys.run (Sys.init workers failFirst) es = some S
 
 end Ecal.Cascade
